@@ -186,6 +186,14 @@ func addVocab(m map[string]Intrinsic) {
 		vm.P.pending = nil
 		return mkBV(64, uint64(n))
 	}
+	// vResumeParked(): parked goroutines that can go on do so (no queued goroutine is started)
+	m["vocab.vResumeParked"] = func(vm *VM, fn *ssa.Function, args []Value) Value {
+		vm.resumeReady()
+		return mkBV(64, uint64(len(vm.P.parked)))
+	}
+	m["vocab.vParkedCount"] = func(vm *VM, fn *ssa.Function, args []Value) Value {
+		return mkBV(64, uint64(len(vm.P.parked)))
+	}
 	m["vocab.vPendingCount"] = func(vm *VM, fn *ssa.Function, args []Value) Value {
 		return mkBV(64, uint64(len(vm.P.pending)))
 	}
